@@ -22,11 +22,13 @@ C = lambda n: ('c', n)      # noqa
 D = {f'd{i}': (0, 255) for i in range(6)}
 
 
-def mk(sid, prog, hi, end='sym', consts=None, start=None, width=24, **cfg):
+def mk(sid, prog, hi, end='sym', consts=None, start=None, width=24, files=None, **cfg):
     cs = dict(D)
     cs.update(consts or {})
     cfgargs = dict(consts=cs, **cfg)
-    p = dict(prog={'main.asm': prog}, cfgargs=cfgargs, props=['C03', 'C14'], binary=True, width=width,
+    allfiles = {'main.asm': prog}
+    allfiles.update(files or {})
+    p = dict(prog=allfiles, cfgargs=cfgargs, props=['C03', 'C14'], binary=True, width=width,
              start=start if start is not None else Sym('ws', 0, hi), fill=Sym('wf', -300, 300), expect=['ok'])
     if end == 'sym':
         p['end'] = Sym('we', 0, hi)
@@ -55,6 +57,15 @@ def shapes(tier, seed):
     S.append(mk('muted-middle:noend',
                 [('org', C(1), None), ('data', '.byte', [V('d0')]), ('mute',), ('data', '.byte', [V('d1'), V('d2')]),
                  ('unmute',), ('data', '.byte', [V('d3')]), ('mute',), ('data', '.byte', [V('d4')])], hi, end=None))
+    # a muted region that crosses an #include in both directions: muted bytes never reach the image
+    S.append(mk('muted-across-include:end',
+                [('org', C(1), None), ('data', '.byte', [V('d0')]), ('mute',), ('data', '.byte', [V('d1')]), ('include', 'inc.asm'),
+                 ('data', '.byte', [V('d2')]), ('unmute',), ('data', '.byte', [V('d3')])], hi if tier != 'quick' else 10,
+                files={'inc.asm': [('data', '.byte', [V('d4')]), ('instr', 'nop', None)]}))
+    S.append(mk('mute-opened-in-include:noend',
+                [('org', C(1), None), ('data', '.byte', [V('d0')]), ('include', 'inc.asm'), ('data', '.byte', [V('d2')]), ('unmute',),
+                 ('data', '.byte', [V('d3')])], hi, end=None,
+                files={'inc.asm': [('data', '.byte', [V('d4')]), ('mute',), ('data', '.byte', [V('d1')])]}))
     S.append(mk('predef-block-and-zone:end',
                 [('instr', 'nop', None), ('memzone', 'Z'), ('data', '.byte', [V('d0'), V('d1')]),
                  ('memzone', 'GLOBAL'), ('instr', 'ld8', ('lsb', V('d2')))], hi if tier != 'quick' else 12,
